@@ -226,8 +226,13 @@ string do_op (string s) {
   case "reload":
     o = REG->get (w[1]);
     // inside a create() script only objects whose own create() runs no script (no re-entrant scripts)
-    if (!o || w[1] == "m" || (REG->depth () > 0 && stringp (REG->script (script_key (o))))) r = "nobj";
-    else { e = catch (reload_object (o)); r = 1; }
+    if (!o || (REG->depth () > 0 && stringp (REG->script (w[1] == "m" ? "/c20/master" : script_key (o))))) r = "nobj";
+    else {
+      if (w[1] == "m") REG->set_reloading (1);
+      e = catch (reload_object (o));
+      REG->set_reloading (0);
+      r = 1;
+    }
     break;
   default:
     r = "badop";
